@@ -66,7 +66,7 @@ CLAIMED = {
              "and checks Transparent / NoCrossTalk / WriterAtomic / Faithful / NoLoss; TLC behaviours are replayed gate by gate into the "
              "real client and server over a fragmenting, coalescing in-memory transport, every Execute result is compared with "
              "CallStep in-process on the same input (payload fidelity decided by the real CBOR codec), and every recorded hook trace "
-             "(replays, delay exploration, concurrent stress) is validated by ATPTrace.tla with the C05 invariants checked in every state. The legacy v1 framing is spec/ATPHello.tla: a call holds the v1 mutex from its work-start to its work-done (V1Transparent, V1NoCrossTalk for serial and overlapping calls against a faithful v1 plugin; the read-lock-only deviation must exhibit cross-talk on the model); behaviours and held-gate schedules of overlapping v1 calls run on the real client over a buffering transport and are validated by ATPHelloTrace.tla.",
+             "(replays, delay exploration, concurrent stress) is validated by ATPTrace.tla with the C05 invariants checked in every state. The legacy v1 framing is spec/ATPHello.tla: a call holds the v1 mutex from its work-start to its work-done (V1Transparent, V1NoCrossTalk for serial and overlapping calls against a faithful v1 plugin; the read-lock-only deviation must exhibit cross-talk on the model); behaviours and held-gate schedules of overlapping v1 calls run on the real client over a buffering transport and are validated by ATPHelloTrace.tla. The signal path with a signalsToStep channel shared by several calls is spec/ATPSignals.tla (Addressed, AtMostOnce, AllDelivered for four runs and every order of addressing; the stamp-own-run-ID deviation must violate Addressed): overlapping calls of a step whose output is the token its signal handler received, in every rotation of the addressing order, are validated by ATPSignalsTrace.tla. Overlapping callers of one run ID, run IDs used again, non-finite floats and rejected inputs are part of the payload sessions.",
         note=TRUST + "Hook placement in atp/ (build tag verif); the gate scheduler's settle detection from goroutine dumps; no write stalls >= 60 s.",
         technique="TLA+ model of client+server+wires checked by TLC; schedule replay into the real code; trace validation of real sessions",
         design="5/C05", engine="tlc-exhaustive"),
@@ -90,9 +90,9 @@ CLAIMED = {
              "client scripts with concrete CBOR variants and played against the real RunATPServer in a supervised child process; "
              "seeded grammar scripts beyond the model (3 runs, 8 messages, duplicate run IDs) and EVERY byte offset of base scripts as "
              "truncation point are run; oracles: process alive, RunATPServer returns, terminal messages per run = accepted work-starts; "
-             "every session without duplicate run IDs is validated by ATPTrace.tla. The server's handshake (SelfSerialize, start message, hello) against any first message, end of input and failing output is the SSpec part of spec/ATPHello.tla (SrvOneError, HelloAfterStart, SrvTotal, liveness), replayed into RunATPServer - also with a plugin that cannot describe itself - and validated by ATPHelloTrace.tla.",
-        note=TRUST + "Hook placement in atp/ (build tag verif); the client keeps reading until the output closes; 60 s send timeout and "
-             "context cancellation not driven; duplicate run IDs only with the counting oracle.",
+             "every session without duplicate run IDs is validated by ATPTrace.tla. The server's handshake (SelfSerialize, start message, hello) against any first message, end of input and failing output is the SSpec part of spec/ATPHello.tla (SrvOneError, HelloAfterStart, SrvTotal, liveness), replayed into RunATPServer - also with a plugin that cannot describe itself - and validated by ATPHelloTrace.tla; the same module follows the input stream across the hand-over from the handshake's decoder to the read loop (NothingSwallowed, LoopSeesAll; the own-decoder deviation must lose a pipelined work-start), exercised with several messages in ONE write. A cancelled server context (not client-driven, outside the statement) is modelled in spec/ATPServerCancel.tla and bound by validated sessions, judged only by what the statement demands of any session.",
+        note=TRUST + "Hook placement in atp/ (build tag verif); the client keeps reading until the output closes; 60 s send timeout "
+             "not driven; duplicate run IDs only with the counting oracle.",
         technique="TLA+ model of the server against a nondeterministic client environment checked by TLC; projected scripts and "
                   "byte-offset truncations run against the real server; trace validation",
         design="5/C07", engine="tlc-exhaustive"),
